@@ -13,6 +13,7 @@ rounds.  SCRAM's cryptography is not modelled (the mechanism is an arbitrary sou
 import KafkaVerif.Model.Auth
 import KafkaVerif.Model.AuthPlainGen
 import KafkaVerif.Spec.SaslPlain
+import KafkaVerif.Gen.MuxFacts
 
 namespace KV.C18
 open KV KV.Auth KV.Spec.Sasl
@@ -513,5 +514,13 @@ theorem raw_follows_handshake_v0 (p : Path) (au : Option (Int × Int)) (tok : By
     (run { path := p, sasl := true } [.versions 0 (some (0, 0)) au, .reply 0 [] false, .mechStart (some tok)]).map
       (fun s => s.log.getLast?) = some (some (.wrote (.rawToken tok))) := by
   cases p <;> simp [run, runFrom, start, step, react, negotiateConn, selectTransport, authWire, State.apply]
+
+/-- structural facts re-read from the source on every run (`go/extract/muxfacts`, shapes not spellings):
+`(*Conn).saslAuthenticate` negotiates on the HANDSHAKE api key and `saslauthenticate.(*Request).Required` looks at
+`versions[SaslHandshake]` (what `authWire` / `framing_follows_handshake` model); `connGroup.connect` closes the
+dialled socket through its deferred guard unless the conn was handed out (`failWith` sets `closed`). -/
+theorem auth_structural_facts_hold :
+    Gen.MuxFacts.connAuthFramingByHandshake = true ∧ Gen.MuxFacts.transportAuthFramingByHandshake = true ∧
+    Gen.MuxFacts.transportConnectClosesUnlessHandedOut = true := by decide
 
 end KV.C18
